@@ -11,7 +11,9 @@ import (
 )
 
 var hostPool = []string{"a.test", "shop.example", "hop.example", "s.test", "x", "sx", "a.test1", "a.b.test", "b.test", "[::1]", "[2001:db8::1]", "127.0.0.1", "xn--nxasmq6b.test", "%E9.test", "%C3%89.test"}
-var segPool = []string{"p", "P", "a", "ab", "a.b", "a-b", "~u", "a%2Fb", "a%2fb", "a%3Fb", "%C3%A9", "%E9", "a%20b", "a;b", "a:b", "a@b", "a=b", "80", "s"}
+var segPool = []string{"p", "P", "a", "ab", "a.b", "a-b", "~u", "a%2Fb", "a%2fb", "a%3Fb", "%C3%A9", "%E9", "a%20b", "a;b", "a:b", "a@b", "a=b", "80", "s",
+	// long segments: store keys of 190 to 260 bytes, around the file-name limits of the file-system backend
+	strings.Repeat("L", 165), strings.Repeat("M", 195), strings.Repeat("N", 235)}
 var queryPool = []string{"", "x=1", "x=1&y=2", "y=2&x=1", "q=%7e", "q=~", "q=%E9", "q=%C3%A9", "q=a%2Fb", "q=a/b", "q=%3F", "q=?", "X=1", "x", "x=", "80", "q=\xe9", "q=caf\xe9&x=\xff"}
 
 type urlParts struct {
@@ -121,6 +123,10 @@ func (g *G) equivalentSpelling(u urlParts) string {
 			s = s[:i+j] + pick(g, "/.", "/zz/..", "/./.", "/%2e", "/zz/%2E%2e", "/zz/.%2E", "/%2E/.", "/zz/yy/../%2e%2e") + s[i+j:]
 		}
 	}
+	if u.trailing && len(u.segs) > 0 && u.query == "" && g.chance(0.25) {
+		// a final "." segment: "/docs/." is "/docs/" (RFC 3986 §5.2.4 keeps the trailing slash)
+		s += pick(g, ".", "%2E", "%2e", "./.")
+	}
 	if g.chance(0.15) {
 		s += "#frag"
 	}
@@ -141,7 +147,7 @@ func (g *G) lookAlike(u urlParts) string {
 	v := u
 	v.segs = append([]string{}, u.segs...)
 	for tries := 0; tries < 8; tries++ {
-		switch g.r.Intn(17) {
+		switch g.r.Intn(18) {
 		case 0: // other scheme, same text otherwise
 			v.scheme = map[string]string{"http": "https", "https": "http"}[u.scheme]
 		case 1: // boundary shift scheme|host: http://sX  vs  https://X
@@ -229,6 +235,11 @@ func (g *G) lookAlike(u urlParts) string {
 			w := u
 			w.segs = append([]string{pick(g, "..", "%2e%2E", "."), ""}, u.segs...)
 			return w.String()
+		case 17: // "/docs/." is "/docs/", which is not "/docs"
+			if u.trailing || len(u.segs) == 0 || u.query != "" {
+				continue
+			}
+			return u.String() + pick(g, "/.", "/%2E", "/x/..")
 		case 16: // a query that is present and empty: "/p?" is not "/p" (RFC 3986 §6.2.3)
 			if u.query != "" {
 				continue
